@@ -904,9 +904,9 @@ class OnSubterm(Rule):
             if e.lim == POS_INF:
                 ctx2 = Context(ctx)
                 ctx2.add_condition(expr.Op(">", Var(e.var), Const(0)))
-                return rule.eval(expr.Limit(e.var, e.lim, self.eval(e.body, ctx2)), ctx)
+                return rule.eval(expr.Limit(e.var, e.lim, self.eval(e.body, ctx2), e.drt), ctx)
             else:
-                return rule.eval(expr.Limit(e.var, e.lim, self.eval(e.body, ctx)), ctx)
+                return rule.eval(expr.Limit(e.var, e.lim, self.eval(e.body, ctx), e.drt), ctx)
         elif e.is_indefinite_integral():
             return rule.eval(expr.IndefiniteIntegral(e.var, self.eval(e.body, ctx), e.skolem_args), ctx)
         elif e.is_summation():
